@@ -16,13 +16,43 @@ def make_group(params, thr, merge, **extra):
     return g
 
 
-def real_blocking(shape, thr, merge, dtype=torch.float64):
-    """Blocks of the real serial Distributor for param = arange(numel).view(shape); values ARE flat indices."""
+def _laid_out(logical: torch.Tensor, layout: str) -> torch.Tensor:
+    """The same logical tensor in a different memory layout: 'contig'; 'offset' (contiguous view into a larger storage at a
+    non-zero storage offset); 'transposed' (dimension order reversed in memory); 'sliced' (every other element of the last
+    dimension of a larger buffer)."""
+    if layout == "contig" or logical.dim() == 0 and layout != "offset":
+        return logical.clone()
+    if layout == "offset":
+        big = torch.full((logical.numel() + 7,), -1.0, dtype=logical.dtype)
+        v = big[5:5 + logical.numel()].view(logical.shape)
+        v.copy_(logical)
+        return v
+    if layout == "transposed":
+        rev = tuple(reversed(range(logical.dim())))
+        v = torch.empty(tuple(reversed(logical.shape)), dtype=logical.dtype).permute(rev)
+        v.copy_(logical)
+        return v
+    if layout == "sliced":
+        big = torch.full(tuple(logical.shape[:-1]) + (2 * logical.shape[-1] + 1,), -1.0, dtype=logical.dtype)
+        v = big[..., 1::2][..., :logical.shape[-1]]
+        v.copy_(logical)
+        return v
+    raise ValueError(layout)
+
+
+def real_blocking(shape, thr, merge, dtype=torch.float64, playout="contig", glayout="contig"):
+    """Blocks of the real serial Distributor for param = arange(numel).view(shape) (values ARE the logical row-major indices),
+    held in memory layout `playout`; the gradient in layout `glayout`.  If the code refuses the layout (RuntimeError from
+    .view on a tensor that cannot be viewed that way) the result is {"refused": where}."""
     numel = 1
     for d in shape:
         numel *= d
-    param = torch.arange(numel, dtype=dtype).view(tuple(shape)).clone().requires_grad_(True)
-    dist = Distributor(make_group([param], thr, merge))
+    logical = torch.arange(numel, dtype=dtype).view(tuple(shape))
+    param = _laid_out(logical, playout).requires_grad_(True)
+    try:
+        dist = Distributor(make_group([param], thr, merge))
+    except RuntimeError as ex:
+        return {"refused": "param", "msg": str(ex)[:80]}
     blocks = dist.local_blocked_params
     base_ptr = param.untyped_storage().data_ptr()
     out = {
@@ -31,21 +61,37 @@ def real_blocking(shape, thr, merge, dtype=torch.float64):
         "idx": [[int(v) for v in b.reshape(-1).tolist()] for b in blocks],
         "same_storage": all(b.untyped_storage().data_ptr() == base_ptr for b in blocks),
         "requires_grad": any(b.requires_grad for b in blocks),
-        "offsets_ok": all(
+        "offsets_ok": playout not in ("contig", "offset") or all(
             (b.numel() == 0) or int(b.reshape(-1)[0].item()) == b.storage_offset() - param.storage_offset() for b in blocks),
     }
     # gradient blocks cover the same index sets in the same order
-    grad = torch.arange(numel, dtype=dtype).view(tuple(shape)).clone()
+    grad = _laid_out(logical, glayout)
     param.grad = grad
-    gblocks = dist.merge_and_block_gradients()
-    out["gidx"] = [[int(v) for v in b.reshape(-1).tolist()] for b in gblocks]
-    out["gshapes"] = [[int(x) for x in b.shape] for b in gblocks]
-    out["g_same_storage"] = all(b.untyped_storage().data_ptr() == grad.untyped_storage().data_ptr() for b in gblocks)
+    try:
+        gblocks = dist.merge_and_block_gradients()
+        out["gidx"] = [[int(v) for v in b.reshape(-1).tolist()] for b in gblocks]
+        out["gshapes"] = [[int(x) for x in b.shape] for b in gblocks]
+        out["g_same_storage"] = all(b.untyped_storage().data_ptr() == grad.untyped_storage().data_ptr() for b in gblocks)
+    except RuntimeError as ex:
+        out["grad_refused"] = str(ex)[:80]
     # writing through the blocks changes the parameter (in-place foreach add on views), each element exactly once
     with torch.no_grad():
-        torch._foreach_add_(list(dist.local_masked_blocked_params), 1.0)
+        torch._foreach_add_(list(dist.local_masked_blocked_params if "grad_refused" not in out else blocks), 1.0)
     out["write_through"] = bool(torch.equal(param.detach().reshape(-1), torch.arange(numel, dtype=dtype) + 1.0))
     return out
+
+
+def viewable(shape, layout, target):
+    """Can a tensor of `shape` in memory layout `layout` be viewed as `target` without a copy?"""
+    numel = 1
+    for d in shape:
+        numel *= d
+    t = _laid_out(torch.zeros(tuple(shape)), layout)
+    try:
+        t.view(tuple(target))
+        return True
+    except RuntimeError:
+        return False
 
 
 def real_split_recovery(which, shape, s, e):
